@@ -25,13 +25,13 @@ import (
 type ledgerRun struct {
 	// rejectPred: when set, a rejection of the honest block by a replica is a violation with this predicate
 	rejectPred string
-	r      *vfw.Run
-	s      *scen.Scn
-	l      *scen.Ledger
-	nodes  []*simnode.Node
-	encs   map[uint64][]byte
-	addrs  []common.Address
-	rounds int
+	r          *vfw.Run
+	s          *scen.Scn
+	l          *scen.Ledger
+	nodes      []*simnode.Node
+	encs       map[uint64][]byte
+	addrs      []common.Address
+	rounds     int
 }
 
 func newLedgerRun(r *vfw.Run, o scen.Opts, minRounds, spanRounds int) *ledgerRun {
